@@ -19,7 +19,7 @@ RULE = (
     "count; distinct = hash of all fields; non-trivial = at least 2 rows and 2 distinct treatment pairs"
 )
 ASSUMPTIONS = ["h5 files are compared through their loaded content, never byte-wise", "a change of the <U width of a string array on load is not a difference"]
-REQUIRED = {"plate_merges_before_save": {"quick": 200, "thorough": 2000}, "roundtrips_checked": {"quick": 2000, "thorough": 15000}, "superset_mapping_roundtrips": {"quick": 500, "thorough": 4000}, "space_roundtrips": {"quick": 600, "thorough": 5000}}
+REQUIRED = {"supplied_mappings_with_permuted_ids": {"quick": 100, "thorough": 1000}, "plate_merges_before_save": {"quick": 200, "thorough": 2000}, "roundtrips_checked": {"quick": 2000, "thorough": 15000}, "superset_mapping_roundtrips": {"quick": 500, "thorough": 4000}, "space_roundtrips": {"quick": 600, "thorough": 5000}}
 N_CASES = {"quick": 2400, "thorough": 19200}
 
 WEIRD_OBS = [float("nan"), float("inf"), float("-inf"), -0.0, 0.0, 5e-324, 1e-310, -1.0, 1.0, 0.1 + 0.2, 1e308, np.float64(np.nextafter(1.0, 2.0))]
@@ -116,7 +116,17 @@ def run_shard(rec, tier, seed, shard, nshards):
                     if not sel.any():
                         sel[0] = True
                     kw2 = {k: (v[sel] if isinstance(v, np.ndarray) else v) for k, v in kw.items() if k != "observation_mask"}
-                    s = Screen(treatment_mapping=full.treatment_mapping, sample_mapping=full.sample_mapping, **kw2)
+                    tmap, smap = full.treatment_mapping, full.sample_mapping
+                    if rng.random() < 0.4:
+                        # a dense numbering that does not follow the listing order (the constructor follows it verbatim)
+                        sm_ids = np.asarray(smap[1]).copy()
+                        smap = (np.asarray(smap[0]).copy(), sm_ids[rng.permutation(len(sm_ids))])
+                        t_ids = np.asarray(tmap[2]).copy()
+                        nc = np.flatnonzero(t_ids >= 0)
+                        t_ids[nc] = t_ids[nc][rng.permutation(len(nc))]
+                        tmap = (np.asarray(tmap[0]).copy(), np.asarray(tmap[1]).copy(), t_ids)
+                        rec.count("supplied_mappings_with_permuted_ids")
+                    s = Screen(treatment_mapping=tmap, sample_mapping=smap, **kw2)
                 else:
                     ar = int(rng.integers(1, 4))
                     base = Screen(**gen.hostile_screen_kwargs(rng, arity=ar))
